@@ -334,6 +334,22 @@ where
     Ok(())
 }
 
+/// [`cache_cobs`], the post-fetch COB cache updater, for the external verification harness.
+#[cfg(feature = "verif")]
+pub fn verif_cache_cobs<S, C>(
+    rid: &RepoId,
+    refs: &[RefUpdate],
+    storage: &S,
+    cache: &mut C,
+) -> Result<(), error::Cache>
+where
+    S: ReadRepository + cob::Store<Namespace = NodeId>,
+    C: cob::cache::Update<cob::issue::Issue> + cob::cache::Update<cob::patch::Patch>,
+    C: cob::cache::Remove<cob::issue::Issue> + cob::cache::Remove<cob::patch::Patch>,
+{
+    cache_cobs(rid, refs, storage, cache)
+}
+
 /// Update or remove a cache entry.
 fn update_or_remove<R, C, T>(
     store: &mut cob::store::Store<T, R>,
